@@ -220,6 +220,7 @@ const (
 	vC12FamNSCycle
 	vC12FamLame
 	vC12FamTrunc
+	vC12FamLate
 )
 
 // ever-deeper referrals: server i is authoritative for the zone made of the last i labels
@@ -447,9 +448,48 @@ func vC12Trunc(n int) vC12Topo {
 		}}
 }
 
+// a lazy parent: the root answers the first [empty] labels of the name with an empty NOERROR (no
+// SOA, as for an empty non-terminal) and only refers to the [zl]-label zone when asked a longer
+// name. With qname-minimisation the resolver has then walked past the cut it is referred to
+// (rs.level > labels of the referral) and restarts from the root without minimisation.
+func vC12Late(zl, empty, ql int) vC12Topo {
+	labels := make([]string, ql)
+	for i := range labels {
+		labels[i] = fmt.Sprintf("l%d", ql-i)
+	}
+	suffix := func(i int) string { return strings.Join(labels[ql-i:], ".") + "." }
+	zone, qname := suffix(zl), suffix(ql)
+	return vC12Topo{fam: vC12FamLate, p1: empty, p2: ql*10 + zl, name: "late-referral", servers: 2, qname: qname,
+		answer: func(srv int, q dns.Question, tcp bool) *dns.Msg {
+			lower := strings.ToLower(q.Name)
+			if srv == 0 {
+				if !vC12Sub(suffix(1), lower) {
+					return vC12Neg(".", dns.RcodeNameError)
+				}
+				if dns.CountLabel(lower) <= empty || !vC12Sub(zone, lower) {
+					m := &dns.Msg{}
+					m.Authoritative = true
+					return m
+				}
+				return vC12Referral(zone, 1)
+			}
+			if lower == qname && q.Qtype == dns.TypeA {
+				return vC12Auth(vC12A(q.Name, net.IPv4(203, 0, 113, 14)))
+			}
+			if vC12Sub(zone, lower) {
+				return vC12Neg(zone, dns.RcodeSuccess)
+			}
+			return vC12Neg(zone, dns.RcodeNameError)
+		}}
+}
+
 // finite: the topology resolves (or fails) in bounded work even with the firewall off, quickly
 func vC12RandTopo(r *rand.Rand, finite bool) vC12Topo {
-	switch r.Intn(9) {
+	switch r.Intn(10) {
+	case 9:
+		zl := 1 + r.Intn(2)
+		empty := zl + r.Intn(4)
+		return vC12Late(zl, empty, empty+1+r.Intn(3))
 	case 0:
 		return vC12Deep(1 + r.Intn(6))
 	case 1:
@@ -684,6 +724,7 @@ func TestVerifC12Lab(t *testing.T) {
 		vC12Deep(28), vC12Deep(29), vC12Deep(30), vC12Deep(31),
 		vC12NSFan(20, 0), vC12NSFan(33, 0), vC12NSFan(12, 2), vC12NSCycle(1), vC12NSCycle(3),
 		vC12Lame(4, 0), vC12Lame(4, 2), vC12Trunc(3),
+		vC12Late(2, 3, 4), vC12Late(1, 3, 5), vC12Late(2, 2, 4),
 	}
 	if os.Getenv("VERIF_TIER") == "thorough" {
 		for _, k := range []int{1, 5, 9} {
@@ -711,6 +752,7 @@ func TestVerifC12Lab(t *testing.T) {
 	}{
 		{vC12Cname(5, true), 42, 10, true}, {vC12Cname(4, true), 40, 6, false}, {vC12Cname(14, false), 60, 5, true},
 		{vC12Cname(25, false), 128, 9, false}, {vC12Dname(8, false), 64, 3, true},
+		{vC12Late(2, 3, 4), 3, 4, true}, {vC12Late(2, 3, 4), 5, 4, true}, {vC12Late(1, 4, 6), 4, 4, true}, {vC12Late(2, 4, 5), 6, 2, true},
 	} {
 		fixed[len(boundary)] = vC12Fixed{f.maxOut, f.maxInt, f.qmin}
 		boundary = append(boundary, f.t)
